@@ -145,6 +145,37 @@ func genCase(t *rapid.T) Case {
 				if rapid.Bool().Draw(t, fmt.Sprintf("samedup%d.%d", i, pi)) {
 					variant += " " + toks[0] + " " + toks[0]
 				}
+				switch rapid.IntRange(0, 3).Draw(t, fmt.Sprintf("samekind%d.%d", i, pi)) {
+				case 0:
+					// the same distinct terms and the same number of tokens, other frequencies: one occurrence
+					// of a repeated term becomes another term of the text
+					words := strings.Fields(cur)
+					if len(words) >= 3 && len(toks) >= 2 {
+						at := rapid.IntRange(0, len(words)-1).Draw(t, fmt.Sprintf("sameat%d.%d", i, pi))
+						words = append(append([]string{}, words...), words[at])                                     // keeps every term present
+						words[at] = toks[rapid.IntRange(0, len(toks)-1).Draw(t, fmt.Sprintf("sameto%d.%d", i, pi))] // changes a frequency
+						words = words[:len(words)-1]
+						if v := strings.Join(words, " "); len(model.Analyse(v)) == len(model.Analyse(cur)) {
+							variant = v
+						}
+					}
+				case 1:
+					// a letter replaced by another member of its case-fold orbit with a lower-case form of its
+					// own (long s, Greek mu / micro sign, theta symbol): equal under case folding, other tokens
+					orbit := map[rune]rune{'s': 'ſ', 'ſ': 's', 'µ': 'μ', 'μ': 'µ', 'θ': 'ϑ', 'ϑ': 'θ', 'k': 'K'}
+					rs := []rune(cur)
+					var at []int
+					for k, r := range rs {
+						if _, ok := orbit[r]; ok {
+							at = append(at, k)
+						}
+					}
+					if len(at) > 0 {
+						k := at[rapid.IntRange(0, len(at)-1).Draw(t, fmt.Sprintf("foldat%d.%d", i, pi))]
+						rs[k] = orbit[rs[k]]
+						variant = string(rs)
+					}
+				}
 				follow := gen.Step{Kind: "update", Points: []model.Point{{Id: st.Points[pi].Id, Doc: model.Doc{gen.PText: variant}}}, Note: "same-terms rewrite"}
 				pending = append(pending, follow)
 			}
